@@ -86,9 +86,13 @@ def _prov_exempt(f: Func, bounds: "Bounds", s: ast.Subscript) -> str:
     return ""
 
 
-_GETLINES_WHY = ("first < last was tested by the enclosing loop; last is eMarks[line], or eMarks[line] + 1 only when the line feed is "
-                 "kept, which the caller requests only for lines that have one (every line but the last; the last line's eMarks is "
-                 "len(src) and keepLastLF adds 1 only below lineMax)")
+_GETLINES_WHY = ("first < last was tested by the enclosing loop; last is eMarks[line], or eMarks[line] + 1 when the line feed is kept. For the "
+                 "last line of a source without trailing line feed eMarks[line] + 1 is len(src) + 1, and the read at first == len(src) is "
+                 "reached only if the whole line is blank and narrower than `indent`: the callers exclude that - html_block passes "
+                 "blkIndent after testing sCount[line] >= blkIndent, fence ends its body at a line whose first non-blank offset is "
+                 "len(src) (its IndexError handler), code / paragraph / reference do not keep the last line feed. This caller-side "
+                 "argument is relational (widths against indents) and is NOT decided by the checker: seed C01-10 (fence's handler "
+                 "replaced by `continue`) is a declared miss")
 
 
 def _group_min_width(pat: str, flags: int, n: int) -> int | None:
